@@ -7,6 +7,7 @@
   tree was wrong (D9) — and values are arbitrary bytes.
 -/
 import GoFlags.Parse
+import GoFlags.Lemmas.ParseBasics
 import GoFlags.Lemmas.Utf8
 
 namespace GoFlags.C02
@@ -140,4 +141,109 @@ example : splitOption ([0xC3, 0xA9] ++ 0x3D :: [0x56]) false = ([0xC3, 0xA9], [0
   have := short_eq_splits 0xE9 (by decide) (by decide) [0x56]
   simpa [encodeRune] using this
 
+/-! ### Clusters -/
+
+/-- a flag occurrence: `Option.Set(nil)` on an option that takes no argument -/
+def applyFlag (E : Env) (help : HelpFn) (s : PS) (r : ORef) : PS × Option GoErr :=
+  finishSet s r (optSet E help s.P r none s.log)
+
+theorem parseOption_flag (E : Env) (help : HelpFn) (s : PS) (r : ORef) (canarg : Bool)
+    (h : (s.P.opt r).ty.canArgument = false) : parseOption E help s r canarg none = applyFlag E help s r := by
+  unfold parseOption applyFlag
+  simp [h]
+
+/-- the flags of a cluster, applied one after the other; stops at the first rejection -/
+def applyFlags (E : Env) (help : HelpFn) : PS → List Nat → PS × Option GoErr
+  | s, [] => (s, none)
+  | s, x :: xs =>
+    match s.P.lookupShort s.cmd x with
+    | some r =>
+      match applyFlag E help s r with
+      | (s', none) => applyFlags E help s' xs
+      | (s', some e) => (s', some e)
+    | none => (s, some (.flags .unknownFlag (B "unknown flag `" ++ encodeRune x ++ B "'")))
+
+/-- every character of the cluster names an option that takes no argument (in the state it is
+    reached in: the names resolve through the declarations, which the flags before it do not change) -/
+def AllFlags (E : Env) (help : HelpFn) : PS → List Nat → Prop
+  | _, [] => True
+  | s, x :: xs =>
+    validRune x = true ∧ ∃ r, s.P.lookupShort s.cmd x = some r ∧ (s.P.opt r).ty.canArgument = false ∧
+      AllFlags E help (applyFlag E help s r).1 xs
+
+/-- **A cluster is its flags one after the other**: `parseShort` on the concatenated characters
+    applies exactly the flags, in order, whatever the offsets. -/
+theorem parseShortLoop_cluster (E : Env) (help : HelpFn) (total : Nat) (xs : List Nat) :
+    ∀ (fuel : Nat) (s : PS) (i : Nat), xs.length < fuel → AllFlags E help s xs →
+      parseShortLoop E help total fuel s (xs.flatMap encodeRune) i none = applyFlags E help s xs := by
+  induction xs with
+  | nil =>
+    intro fuel s i hf _
+    cases fuel with
+    | zero => simp at hf
+    | succ f => simp [parseShortLoop, applyFlags]
+  | cons x xs ih =>
+    intro fuel s i hf hall
+    obtain ⟨hv, r, hl, hca, hrest⟩ := hall
+    cases fuel with
+    | zero => simp at hf
+    | succ f =>
+      simp only [List.flatMap_cons]
+      have hne := encodeRune_length_pos x
+      cases he : encodeRune x with
+      | nil => simp [he] at hne
+      | cons b t =>
+        have hdec : decodeRune ((b :: t) ++ xs.flatMap encodeRune) = (x, (b :: t).length) := by
+          rw [← he]; exact decodeRune_encodeRune x hv _
+        simp only [List.cons_append] at hdec ⊢
+        unfold parseShortLoop
+        simp only [hdec, hl]
+        rw [parseOption_flag E help s r _ hca]
+        unfold applyFlags
+        simp only [hl]
+        cases hres : applyFlag E help s r with
+        | mk s' e =>
+          cases e with
+          | some e => rfl
+          | none =>
+            simp only
+            have hdrop : (b :: (t ++ xs.flatMap encodeRune)).drop (b :: t).length = xs.flatMap encodeRune := by
+              have : b :: (t ++ xs.flatMap encodeRune) = (b :: t) ++ xs.flatMap encodeRune := rfl
+              rw [this, List.drop_left]
+            rw [hdrop]
+            rw [hres] at hrest
+            exact ih f s' _ (by simp at hf; omega) hrest
+
+theorem flatMap_encodeRune_length (xs : List Nat) : xs.length ≤ (xs.flatMap encodeRune).length := by
+  induction xs with
+  | nil => simp
+  | cons x xs ih =>
+    have := encodeRune_length_pos x
+    simp only [List.flatMap_cons, List.length_append, List.length_cons]
+    omega
+
+/-- **`-abc` is `-a -b -c`** at the level of options: `parseShort` on a cluster whose characters
+    all name options that take no argument applies exactly those flags, in the order typed — the
+    same `Option.Set(nil)` calls the separate tokens `-a`, `-b`, `-c` make (each of which is the
+    one-character case of this theorem). -/
+theorem cluster_is_its_flags_in_order (E : Env) (help : HelpFn) (s : PS) (xs : List Nat)
+    (hall : AllFlags E help s xs) :
+    parseShort E help s (xs.flatMap encodeRune) none = applyFlags E help s xs := by
+  unfold parseShort
+  simp only [Option.isNone_none, if_true]
+  have hsplit : splitShortConcatArg s (xs.flatMap encodeRune) = (xs.flatMap encodeRune, none) := by
+    unfold splitShortConcatArg
+    cases xs with
+    | nil => simp [decodeRune]
+    | cons x rest =>
+      obtain ⟨hv, r, hl, hca, _⟩ := hall
+      simp only [List.flatMap_cons]
+      rw [decodeRune_encodeRune x hv]
+      simp only
+      split
+      · rfl
+      · simp only [hl, hca, Bool.false_eq_true, if_false]
+  rw [hsplit]
+  simp only
+  exact parseShortLoop_cluster E help _ xs _ s 0 (by have := flatMap_encodeRune_length xs; omega) hall
 end GoFlags.C02
